@@ -198,6 +198,22 @@ def run(ctx, report):
                     probs.append(f"{c} is reported categorical but read as {dname(got[c].dtype)}")
             if layout == "hive-part" and "p" in got.columns and dname(got["p"].dtype) != "category":
                 probs.append("partition column p is not categorical in the read")
+            # ---- derived handles are dataset handles too: their counts must match what they read
+            try:
+                nrg = len(pf.row_groups)
+                subs = [(f"pf[{i}]", pf[i]) for i in range(min(nrg, 3))]
+                if nrg > 1:
+                    subs += [("pf[1:]", pf[1:]), ("pf[::2]", pf[::2]), ("pf[:0]", pf[:0])]
+                for hname, hnd in subs:
+                    n_meta, n_info = hnd.count(), hnd.info["rows"]
+                    n_rg = sum(rg.num_rows for rg in hnd.row_groups)
+                    n_read = len(hnd.to_pandas(columns=columns, categories=cats, index=idx)) if len(hnd.row_groups) else 0
+                    if not (n_meta == n_info == n_rg == n_read):
+                        probs.append(f"{hname}: count() = {n_meta}, info['rows'] = {n_info}, row groups add up to {n_rg}, a read gives {n_read} rows")
+                        break
+                report.count("derived-handles:" + str(len(subs)))
+            except Exception as e:  # noqa
+                probs.append("derived handle: metadata query or read raised " + canon_err(e) + " " + str(e)[:80])
             if probs:
                 kinds_bad = sorted({p.split(" of ")[1].split(":")[0].split("_", 1)[1] for p in probs if p.startswith("dtype of ") and "_" in p.split(" of ")[1].split(":")[0]})
                 report.violation({**rec, "what": "; ".join(probs)[:400], "pandas_nulls_off": not pandas_nulls,
